@@ -1,31 +1,589 @@
+// C10 — the EVM computes what the reference EVM semantics prescribe.
+// Correspondence harness: runs byte programs on the real vm.EVM (through runtime.PrepareClause) and on the model extracted
+// from coq/EVM/Model.v, compares success class, return data, gas left, refund, logs and storage; evaluates the property's own
+// predicates on the implementation (ALU vs math/big on every executed ALU instruction, failed-frame-no-effect and
+// static-no-write at every call depth, no panic, gas left <= gas given).
 package main
 
 import (
-	"encoding/hex"
+	"encoding/json"
 	"fmt"
 	"math/big"
 	"os"
+	"path/filepath"
+	"sort"
+	"strings"
+	"sync"
+	"time"
 
-	"github.com/vechain/thor/v2/muxdb"
-	"github.com/vechain/thor/v2/runtime"
-	"github.com/vechain/thor/v2/state"
-	"github.com/vechain/thor/v2/thor"
-	"github.com/vechain/thor/v2/trie"
-	"github.com/vechain/thor/v2/tx"
-	"github.com/vechain/thor/v2/xenv"
+	"verif/harness/internal/hx"
 )
 
+// ---------------------------------------------------------------- oracle plumbing
+
+func askSharded(oracle string, lines []string) []string {
+	if len(lines) == 0 {
+		return nil
+	}
+	shards := 16
+	if len(lines) < 64 {
+		shards = 1
+	}
+	out := make([]string, len(lines))
+	var wg sync.WaitGroup
+	var mu sync.Mutex
+	var firstErr error
+	per := (len(lines) + shards - 1) / shards
+	for s := 0; s < shards; s++ {
+		lo, hi := s*per, (s+1)*per
+		if hi > len(lines) {
+			hi = len(lines)
+		}
+		if lo >= hi {
+			continue
+		}
+		wg.Add(1)
+		go func(lo, hi int) {
+			defer wg.Done()
+			// deep (non-tail) list recursion of the extracted model on large memories needs a large native stack
+			res, err := hx.AskAll("/bin/sh", lines[lo:hi], "-c", `ulimit -s unlimited 2>/dev/null || ulimit -s 4000000 2>/dev/null; exec "$0"`, oracle)
+			if err != nil {
+				mu.Lock()
+				firstErr = err
+				mu.Unlock()
+				return
+			}
+			copy(out[lo:hi], res)
+		}(lo, hi)
+	}
+	wg.Wait()
+	if firstErr != nil {
+		hx.Fatal("oracle: %v", firstErr)
+	}
+	return out
+}
+
+func progOf(c *Case) *Case {
+	if c.Kind != "alu" {
+		return c
+	}
+	x := *c
+	x.Contracts = []Contract{{Addr: contractAHex, Code: hx.Hex(aluProgram(c.Vecs))}}
+	x.To = contractAHex
+	return &x
+}
+
+func oracleRunLine(c *Case, gas uint64) string {
+	var sb strings.Builder
+	in := c.Input
+	if in == "" {
+		in = "-"
+	}
+	fmt.Fprintf(&sb, "RUN %x 0 %s %x %s %x %x 0 %x %s %x %s %s |", gas, originHex, envGasPrice, coinbaseHex, envTime, envNumber,
+		envGasLimit, chainIDHex, envBaseFee, strings.TrimLeft(c.To, "0"), in)
+	for _, ct := range c.Contracts {
+		code := ct.Code
+		if code == "" {
+			continue // an account without code does not exist
+		}
+		fmt.Fprintf(&sb, " C %s %s", bigHex(ct.Addr).Text(16), code)
+	}
+	sb.WriteString(" |")
+	for _, s := range c.Storage {
+		fmt.Fprintf(&sb, " S %s %s %s", bigHex(s.Addr).Text(16), bigHex(s.Key).Text(16), bigHex(s.Val).Text(16))
+	}
+	return sb.String()
+}
+
+type modelAns struct {
+	Class   string
+	Head    string
+	Logs    []string
+	Storage map[string]string
+}
+
+func parseAns(s string) modelAns {
+	var m modelAns
+	m.Storage = map[string]string{}
+	parts := strings.Split(s, "|")
+	if len(parts) != 3 {
+		m.Class = "ERR"
+		m.Head = s
+		return m
+	}
+	h := strings.Fields(parts[0])
+	if len(h) != 4 {
+		m.Class = "ERR"
+		m.Head = s
+		return m
+	}
+	m.Class = h[0]
+	cls := h[0]
+	if strings.HasPrefix(cls, "err:") {
+		cls = "fail"
+	}
+	m.Head = cls + " " + h[1] + " " + h[2] + " " + h[3]
+	lf := strings.Fields(parts[1])
+	for i := 0; i+3 < len(lf)+0 && lf[i] == "L"; i += 4 {
+		m.Logs = append(m.Logs, lf[i+1]+" "+lf[i+2]+" "+lf[i+3])
+	}
+	sf := strings.Fields(parts[2])
+	for i := 0; i+3 < len(sf)+0 && sf[i] == "S"; i += 4 {
+		m.Storage[sf[i+1]+" "+sf[i+2]] = sf[i+3]
+	}
+	return m
+}
+
+// diff returns "" when the implementation's observations equal the model's answer, else the first differing field.
+func diff(c *Case, o *Obs, m *modelAns) (field, detail string) {
+	ih := o.head()
+	if o.Class == "fail" { // data/gas/refund of a failed entry call: nil, 0, 0 on both sides; compare anyway
+		ih = fmt.Sprintf("fail %s %x %x", o.Data, o.Gas, o.Refund)
+	}
+	if ih != m.Head {
+		f := "class"
+		a, b := strings.Fields(ih), strings.Fields(m.Head)
+		names := []string{"class", "return-data", "gas-left", "refund"}
+		for i := range a {
+			if i < len(b) && a[i] != b[i] {
+				f = names[i]
+				break
+			}
+		}
+		return f, "impl=[" + ih + "] model=[" + m.Head + "]"
+	}
+	if strings.Join(o.Logs, ";") != strings.Join(m.Logs, ";") {
+		return "logs", "impl=[" + strings.Join(o.Logs, ";") + "] model=[" + strings.Join(m.Logs, ";") + "]"
+	}
+	keys := map[string]struct{}{}
+	for k := range o.Storage {
+		keys[k] = struct{}{}
+	}
+	for k := range m.Storage {
+		keys[k] = struct{}{}
+	}
+	var ks []string
+	for k := range keys {
+		ks = append(ks, k)
+	}
+	sort.Strings(ks)
+	for _, k := range ks {
+		iv, ok := o.Storage[k]
+		if !ok { // slot the implementation never wrote according to the tracer: read it now
+			iv = readSlot(c, o, k)
+		}
+		mv, ok := m.Storage[k]
+		if !ok {
+			mv = "0"
+		}
+		if iv != mv {
+			return "storage", "slot " + k + ": impl=" + iv + " model=" + mv
+		}
+	}
+	return "", ""
+}
+
+// a slot only the model reports: the implementation's value is its initial value (it was never written there)
+func readSlot(c *Case, o *Obs, k string) string {
+	for _, s := range c.Storage {
+		if bigHex(s.Addr).Text(16)+" "+bigHex(s.Key).Text(16) == k {
+			return bigHex(s.Val).Text(16)
+		}
+	}
+	return "0"
+}
+
+// ---------------------------------------------------------------- running a batch
+
+type run struct {
+	c   *Case // program form
+	src *Case // as generated (alu cases keep their vectors)
+	gas uint64
+	o   Obs
+}
+
+func sweepPoints(r *hx.Rand, steps [][2]uint64, gas uint64, max int) []uint64 {
+	set := map[uint64]struct{}{}
+	for _, s := range steps {
+		used := gas - s[0]
+		set[used+s[1]] = struct{}{} // exactly enough for this step
+		if used+s[1] > 0 {
+			set[used+s[1]-1] = struct{}{} // one short: out of gas at this step
+		}
+	}
+	var all []uint64
+	for g := range set {
+		if g < gas {
+			all = append(all, g)
+		}
+	}
+	sort.Slice(all, func(i, j int) bool { return all[i] < all[j] })
+	if max > 0 && len(all) > max {
+		picked := map[uint64]struct{}{}
+		for len(picked) < max {
+			picked[all[r.Intn(len(all))]] = struct{}{}
+		}
+		all = all[:0]
+		for g := range picked {
+			all = append(all, g)
+		}
+		sort.Slice(all, func(i, j int) bool { return all[i] < all[j] })
+	}
+	return all
+}
+
+func checkAluVectors(ctx *hx.Ctx, src *Case, o *Obs) {
+	// the returned memory holds one word per vector: compare with the mathematical definition
+	data := hexBytes(o.Data)
+	for i, v := range src.Vecs {
+		want := mathALU(v.Op, bigHex(v.A), bigHex(v.B), bigHex(v.C))
+		ctx.Cov.Count("alu-op=" + v.Op)
+		if o.Class != "ok" || len(data) < 32*(i+1) {
+			ctx.Violation("alu-program-failed", "ALU program did not return its results: "+o.head(), src, false)
+			return
+		}
+		got := new(big.Int).SetBytes(data[32*i : 32*i+32])
+		if got.Cmp(want) != 0 {
+			one := &Case{Kind: "alu", Gen: "alu", Gas: src.Gas, To: contractAHex, Vecs: []AluVec{v}}
+			ctx.Violation("alu:"+v.Op, fmt.Sprintf("%s(%s, %s, %s) = %x on the EVM, %x by its mathematical definition", v.Op, v.A, v.B, v.C, got, want), one, true)
+		}
+	}
+}
+
+func propClass(f string) string {
+	if i := strings.Index(f, ":"); i > 0 {
+		head := f[:i]
+		if head == "alu" {
+			rest := strings.TrimSpace(f[i+1:])
+			if j := strings.IndexAny(rest, "( "); j > 0 {
+				return "alu:" + rest[:j]
+			}
+		}
+		return head
+	}
+	return "other"
+}
+
+func runBatch(ctx *hx.Ctx, r *hx.Rand, cases []*Case, sweepMax int) {
+	var runs []*run
+	tStart := time.Now()
+	for _, src := range cases {
+		c := progOf(src)
+		full := &run{c: c, src: src, gas: c.Gas}
+		full.o = runImpl(c, c.Gas, true)
+		runs = append(runs, full)
+		pts := src.Sweep
+		if pts == nil && src.Kind == "prog" && sweepMax != 0 && full.o.Panic == "" {
+			pts = sweepPoints(r, full.o.Steps, c.Gas, sweepMax)
+		}
+		for _, g := range pts {
+			x := &run{c: c, src: src, gas: g}
+			x.o = runImpl(c, g, false)
+			runs = append(runs, x)
+		}
+	}
+	var lines []string
+	for _, x := range runs {
+		lines = append(lines, oracleRunLine(x.c, x.gas))
+	}
+	// ALU vectors additionally go to the model's ALU directly
+	type aluRef struct{ run, vec int }
+	var aluIdx []aluRef
+	for i, x := range runs {
+		if x.src.Kind == "alu" {
+			for j, v := range x.src.Vecs {
+				lines = append(lines, fmt.Sprintf("ALU %s %s %s %s", v.Op, v.A, v.B, v.C))
+				aluIdx = append(aluIdx, aluRef{i, j})
+			}
+		}
+	}
+	t0 := time.Now()
+	answers := askSharded(ctx.Oracle, lines)
+	if os.Getenv("C10_TIMING") != "" {
+		fmt.Fprintf(os.Stderr, "batch: %d runs, impl %.1fs, oracle %.1fs\n", len(runs), t0.Sub(tStart).Seconds(), time.Since(t0).Seconds())
+		if f := os.Getenv("C10_DUMP"); f != "" {
+			os.WriteFile(f, []byte(strings.Join(lines, "\n")+"\n"), 0o644)
+		}
+	}
+
+	for i, x := range runs {
+		o := &x.o
+		isFull := x.gas == x.c.Gas
+		canon, _ := json.Marshal(struct {
+			C any
+			G uint64
+		}{x.src, x.gas})
+		nontrivial := false
+		if x.src.Kind == "alu" {
+			nontrivial = true
+		} else {
+			n := 0
+			for _, k := range o.Ops {
+				n += k
+			}
+			nontrivial = n >= 8 && (o.MaxDepth >= 1 || o.Ops["SSTORE"] > 0 || o.Ops["MSTORE"] > 0 || o.Ops["JUMPI"] > 0 || o.Ops["JUMP"] > 0)
+		}
+		var sample any
+		if isFull && x.src.Kind == "prog" {
+			sample = x.src
+		}
+		ctx.Cov.Case(string(canon), nontrivial, sample)
+		ctx.Cov.Count("stream=" + x.src.Gen)
+		if !isFull {
+			ctx.Cov.Count("gas-sweep-runs")
+		}
+		if o.Panic != "" {
+			ctx.Violation("panic", "the EVM panicked: "+o.Panic, withGas(x.src, x.gas), true)
+			continue
+		}
+		ctx.Cov.Count("impl-class=" + o.Class)
+		if o.Class == "fail" {
+			ctx.Cov.Count("impl-error=" + o.ErrText)
+		}
+		if isFull {
+			ctx.Cov.Bucket("call-depth", o.MaxDepth)
+			ctx.Cov.Add("alu-instructions-checked-in-context", o.AluSeen)
+			for _, op := range []string{"SSTORE", "SLOAD", "MSTORE", "MLOAD", "MSTORE8", "JUMP", "JUMPI", "CALL", "STATICCALL", "DELEGATECALL", "CALLCODE",
+				"LOG0", "LOG1", "LOG2", "LOG3", "LOG4", "RETURNDATACOPY", "CALLDATACOPY", "CODECOPY", "REVERT", "RETURN"} {
+				if o.Ops[op] > 0 {
+					ctx.Cov.Add("executed="+op, o.Ops[op])
+				}
+			}
+		}
+		// 1. property predicates on the implementation alone
+		if len(o.PropFail) > 0 {
+			f := o.PropFail[0]
+			sc := shrinkCase(ctx, withGas(x.src, x.gas), func(y *Case) bool {
+				oo := runImpl(progOf(y), y.Gas, false)
+				return len(oo.PropFail) > 0 && propClass(oo.PropFail[0]) == propClass(f)
+			})
+			ctx.Violation("property:"+propClass(f), f, sc, true)
+			continue
+		}
+		if x.src.Kind == "alu" && isFull {
+			checkAluVectors(ctx, x.src, o)
+		}
+		// 2. correspondence with the extracted model
+		m := parseAns(answers[i])
+		ctx.Cov.Count("model-class=" + strings.SplitN(m.Class, ":", 2)[0])
+		switch m.Class {
+		case "unsupported", "fuel":
+			continue // outside the modelled fragment: only the predicates above apply
+		case "ERR":
+			ctx.Cov.Count("oracle-error")
+			fmt.Fprintln(os.Stderr, "oracle error:", m.Head)
+			continue
+		}
+		if strings.HasPrefix(m.Class, "err:") && o.Class == "fail" {
+			ctx.Cov.Count("error-kind-agree=" + fmt.Sprint(m.Class[4:] == o.ErrText || (o.ErrText == "gasoverflow" && m.Class[4:] == "oog") || (o.ErrText == "oog" && m.Class[4:] == "gasoverflow")))
+		}
+		if f, d := diff(x.c, o, &m); f != "" {
+			sc := shrinkCase(ctx, withGas(x.src, x.gas), func(y *Case) bool {
+				p := progOf(y)
+				oo := runImpl(p, y.Gas, false)
+				if oo.Panic != "" {
+					return false
+				}
+				ans := askSharded(ctx.Oracle, []string{oracleRunLine(p, y.Gas)})
+				mm := parseAns(ans[0])
+				if mm.Class == "unsupported" || mm.Class == "fuel" || mm.Class == "ERR" {
+					return false
+				}
+				ff, _ := diff(p, &oo, &mm)
+				return ff == f
+			})
+			// the property itself on the shrunk case and its neighbours: ALU in context, failed-frame, static
+			if pf := propertySearch(sc); pf != "" {
+				ctx.Violation("property:"+propClass(pf), pf, sc, true)
+			} else {
+				ctx.Violation("correspondence:"+f, "correspondence EVM.Model ~ vm.EVM no longer checks (the theorems of Properties/C10.v are about the model); first difference in "+f+": "+d, sc, false)
+			}
+		}
+	}
+	for k, ref := range aluIdx {
+		x := runs[ref.run]
+		v := x.src.Vecs[ref.vec]
+		got := answers[len(runs)+k]
+		want := mathALU(v.Op, bigHex(v.A), bigHex(v.B), bigHex(v.C)).Text(16)
+		if got != want {
+			// the model's ALU is proved equal to the mathematical definition; a difference here means the oracle build is broken
+			ctx.Violation("oracle-alu:"+v.Op, "extracted i_alu disagrees with math/big: "+got+" vs "+want, v, false)
+		}
+	}
+}
+
+func withGas(c *Case, gas uint64) *Case {
+	x := *c
+	x.Gas = gas
+	x.Sweep = []uint64{}
+	return &x
+}
+
+// propertySearch evaluates the implementation-only predicates on the case at a spread of gas values.
+func propertySearch(c *Case) string {
+	p := progOf(c)
+	o := runImpl(p, c.Gas, true)
+	if len(o.PropFail) > 0 {
+		return o.PropFail[0]
+	}
+	for _, g := range sweepPoints(hx.NewRand(1), o.Steps, c.Gas, 64) {
+		if oo := runImpl(p, g, false); len(oo.PropFail) > 0 {
+			return oo.PropFail[0]
+		}
+	}
+	return ""
+}
+
+// shrinkCase: delta-debugging on the byte programs, storage and input while pred holds.
+func shrinkCase(ctx *hx.Ctx, c *Case, pred func(*Case) bool) *Case {
+	if c.Kind == "alu" {
+		cur := c
+		for i := 0; i < len(cur.Vecs) && len(cur.Vecs) > 1; i++ {
+			x := *cur
+			x.Vecs = append(append([]AluVec{}, cur.Vecs[:i]...), cur.Vecs[i+1:]...)
+			if pred(&x) {
+				cur = &x
+				i--
+			}
+		}
+		return cur
+	}
+	cur := c
+	budget := 400
+	try := func(x *Case) bool {
+		if budget <= 0 {
+			return false
+		}
+		budget--
+		return pred(x)
+	}
+	// drop whole contracts (never the entry), storage slots, input
+	for i := len(cur.Contracts) - 1; i >= 1; i-- {
+		x := *cur
+		x.Contracts = append(append([]Contract{}, cur.Contracts[:i]...), cur.Contracts[i+1:]...)
+		if try(&x) {
+			cur = &x
+		}
+	}
+	for i := len(cur.Storage) - 1; i >= 0; i-- {
+		x := *cur
+		x.Storage = append(append([]Slot{}, cur.Storage[:i]...), cur.Storage[i+1:]...)
+		if try(&x) {
+			cur = &x
+		}
+	}
+	if cur.Input != "" {
+		x := *cur
+		x.Input = ""
+		if try(&x) {
+			cur = &x
+		}
+	}
+	// remove byte chunks from each contract's code
+	for ci := range cur.Contracts {
+		for chunk := 32; chunk >= 1; chunk /= 2 {
+			for pos := 0; ; {
+				code := hexBytes(cur.Contracts[ci].Code)
+				if pos+chunk > len(code) {
+					break
+				}
+				nc := append(append([]byte{}, code[:pos]...), code[pos+chunk:]...)
+				x := *cur
+				x.Contracts = append([]Contract{}, cur.Contracts...)
+				x.Contracts[ci].Code = hx.Hex(nc)
+				if try(&x) {
+					cur = &x
+				} else {
+					pos += chunk
+				}
+				if budget <= 0 {
+					break
+				}
+			}
+		}
+	}
+	return cur
+}
+
+// ---------------------------------------------------------------- main
+
+func loadCase(path string) *Case {
+	b, err := os.ReadFile(path)
+	if err != nil {
+		hx.Fatal("%v", err)
+	}
+	var doc struct {
+		Replay *Case `json:"replay"`
+	}
+	if err := json.Unmarshal(b, &doc); err != nil || doc.Replay == nil {
+		hx.Fatal("bad replay file %s: %v", path, err)
+	}
+	return doc.Replay
+}
+
+// envInt: development aid to run a smaller/larger sample than the tier default
+func envInt(name string, def int) int {
+	if v := os.Getenv(name); v != "" {
+		var n int
+		if _, err := fmt.Sscan(v, &n); err == nil {
+			return n
+		}
+	}
+	return def
+}
+
 func main() {
-	code, _ := hex.DecodeString(os.Args[1])
-	st := state.New(muxdb.NewMem(), trie.Root{})
-	a := thor.BytesToAddress([]byte("ctrA"))
-	st.SetCode(a, code)
-	rt := runtime.New(nil, st, &xenv.BlockContext{Number: 1000, Time: 12345, GasLimit: 10000000, BaseFee: big.NewInt(7)}, &thor.SoloFork)
-	cl := tx.NewClause(&a).WithData([]byte{1, 2, 3})
-	exec, _ := rt.PrepareClause(cl, 0, 100000, &xenv.TransactionContext{Origin: thor.BytesToAddress([]byte("orig")), GasPrice: big.NewInt(1)})
-	out, _, err := exec()
-	fmt.Println(err)
-	fmt.Printf("%x left=%d refund=%d vmerr=%v events=%d\n", out.Data, out.LeftOverGas, out.RefundGas, out.VMErr, len(out.Events))
-	v, _ := st.GetStorage(a, thor.Bytes32{})
-	fmt.Println(v)
+	ctx := hx.Init("C10")
+	r := hx.NewRand(ctx.Seed)
+	if ctx.Replay != "" {
+		c := loadCase(ctx.Replay)
+		runBatch(ctx, r, []*Case{c}, 0)
+		ctx.Finish("replay", nil)
+	}
+	if dir := os.Getenv("VERIF_CORPUS"); dir != "" {
+		files, _ := filepath.Glob(filepath.Join(dir, "*.json"))
+		sort.Strings(files)
+		var cs []*Case
+		for _, f := range files {
+			cs = append(cs, loadCase(f))
+		}
+		if len(cs) > 0 {
+			ctx.Cov.Add("corpus-cases", len(cs))
+			runBatch(ctx, r.Fork(7), cs, 0)
+		}
+	}
+	// ALU stream
+	nAlu := envInt("C10_NALU", ctx.Scale(25000, 400000)) // programs of 8 vectors
+	ra := r.Fork(1)
+	for done := 0; done < nAlu; done += 5000 {
+		var cs []*Case
+		for i := 0; i < 5000 && done+i < nAlu; i++ {
+			cs = append(cs, genAluCase(ra, 8))
+		}
+		runBatch(ctx, ra, cs, 0)
+	}
+	// program stream with out-of-gas sweeps
+	nProg := envInt("C10_NPROG", ctx.Scale(10000, 600000))
+	sweep := 6
+	if ctx.Thorough() {
+		sweep = 24
+	}
+	rp := r.Fork(2)
+	for done := 0; done < nProg; done += 2000 {
+		var cs []*Case
+		for i := 0; i < 2000 && done+i < nProg; i++ {
+			cs = append(cs, genProgCase(rp))
+		}
+		runBatch(ctx, rp, cs, sweep)
+	}
+	ctx.Finish("ALU stream: programs of 8 boundary-biased vectors (0, 1, 2^255, 2^256-1, 2^k and 2^k+-1, shift/byte indices around the cut-offs, "+
+		"random of random bit length) over all 25 ALU instructions, each result compared with math/big and with the extracted model; "+
+		"program stream: grammar-generated 2-3 contract worlds (ALU, memory incl. expansion, storage, logs, valid/invalid jumps, loops, copies, "+
+		"environment reads, nested CALL/STATICCALL/DELEGATECALL/CALLCODE, terminators), mutated and raw random byte programs, stress shapes; "+
+		"each program also run at out-of-gas cut points taken from the step boundaries of its outermost frame; "+
+		"non-trivial = at least 8 executed instructions including a call, SSTORE, MSTORE or jump; distinct = hash of (case, gas)",
+		[]string{"instruction set and gas of thor's latest fork only (Shanghai jump table, GasTableConstantinople, pre-Constantinople SSTORE schedule)",
+			"out of the model (outcome 'unsupported', observed only for no-panic / failed-frame / static): SHA3, BALANCE, SELFBALANCE, EXTCODE*, BLOCKHASH, "+
+				"CREATE, CREATE2, SELFDESTRUCT, value-bearing calls, precompiles, native-call interception",
+			"holiman/uint256 limb algorithms and math/big are represented by Z arithmetic in the model"})
 }
